@@ -101,6 +101,27 @@ def guards_of(node: ast.AST, stop: ast.AST) -> List[Tuple[ast.expr, bool]]:
     return out[::-1]
 
 
+_NEG_OPS = {ast.IsNot: ast.Is, ast.NotEq: ast.Eq, ast.NotIn: ast.In}
+
+
+def norm_guard(test: ast.expr, pol: bool) -> Tuple[ast.expr, bool]:
+    """Canonical (test, polarity): `not X` -> (X, flipped); `a is not b` / `a != b` / `a not in b` -> the positive
+    comparison with the polarity flipped.  `if not (x is None): A else: B` and `if x is None: B else: A` give equal guards."""
+    while True:
+        if isinstance(test, ast.UnaryOp) and isinstance(test.op, ast.Not):
+            test, pol = test.operand, not pol
+            continue
+        if isinstance(test, ast.Compare) and len(test.ops) == 1 and type(test.ops[0]) in _NEG_OPS:
+            test = ast.Compare(left=test.left, ops=[_NEG_OPS[type(test.ops[0])]()], comparators=test.comparators)
+            pol = not pol
+            continue
+        return test, pol
+
+
+def norm_guards(node: ast.AST, stop: ast.AST) -> List[Tuple[ast.expr, bool]]:
+    return [norm_guard(g, pol) for g, pol in guards_of(node, stop)]
+
+
 def _contains(root: ast.AST, node: ast.AST) -> bool:
     for n in ast.walk(root):
         if n is node:
